@@ -172,6 +172,8 @@ CHECKS = {
              "reach": ["C15.all_returned", "C15.probed_after_close"]},
             # the ring a connection gets for any configured size (a ring below two read blocks starves the socket pump)
             {"pkg": "service", "run": "H14_sizes", "flags": {"common": ["-unwind", "100000"]}, "reach": ["C14.sizes"]},
+            # the sender pump gives up on a failing socket write - with whatever error - only after closing the ring (see C14)
+            {"pkg": "service", "run": "H14_writeto_writer_fails", "flags": {"common": ["-unwind", "40", "-bounds", "N14chunk=4"]}, "reach": ["C14.writeto_writer_fails"]},
         ],
         "bounds": {"quick": "threads: consumer op (Read / ReadPeek+ReadCommit / ReadWait+ReadCommit of 2) || producer op (Write / WriteWait+WriteCommit of 2) || 0-2 Close; 5 fill states x 2 cursor positions; preemption bound 1 (plus all switches at blocking points)",
                    "thorough": "preemption bound 2"},
@@ -398,7 +400,7 @@ CHECKS = {
         "validate_under_race": True,
         "groups": [
             {"pkg": "service", "run": "H18_.*", "flags": {"common": ["-unwind", "64", "-race"]},
-             "reach_any": ["C18.retained_update", "C18.fanout_churn", "C18.teardown", "C18.teardown_delivery", "C18.teardown_after_delivery", "C18.resume", "C18.ackqueue", "C18.inproc_api"]},
+             "reach_any": ["C18.retained_update", "C18.fanout_churn", "C18.teardown", "C18.teardown_delivery", "C18.teardown_after_delivery", "C18.resume", "C18.ackqueue", "C18.inproc_api", "C18.will_during_takeover"]},
             # the same scenarios with the threads rotated in the opposite order: which accesses a happens-before
             # detector sees unordered depends on the order in which the explored run took the locks
             {"pkg": "service", "run": "H18_.*", "flags": {"common": ["-unwind", "64", "-race", "-schedrev"]}, "reach": []},
